@@ -13,6 +13,7 @@ import (
 
 	"github.com/dave/dst"
 	"github.com/dave/dst/decorator/resolver"
+	"github.com/dave/dst/verifhook"
 )
 
 // NewRestorer returns a restorer.
@@ -132,9 +133,11 @@ func (r *FileRestorer) RestoreFile(file *dst.File) (*ast.File, error) {
 	r.base = r.Fset.Base() // base is the pos that the file will start at in the fset
 	r.cursor = token.Pos(r.base)
 
+	verifhook.Point("FileRestorer.RestoreFile.imports")
 	if err := r.updateImports(); err != nil {
 		return nil, err
 	}
+	verifhook.Point("FileRestorer.RestoreFile.nodes")
 
 	// restore the file, populate comments and lines
 	f := r.restoreNode(r.file, "", "", "", false).(*ast.File)
@@ -638,6 +641,9 @@ func (r *FileRestorer) applyDecorations(node ast.Node, name string, decorations 
 	isPackageComment := isNodeFile && name == "Start"
 
 	for _, d := range decorations {
+		if verifhook.Enabled {
+			verifhook.Dec(fmt.Sprintf("%T", node), name, d, int(r.cursor), int(r.cursorAtNewLine))
+		}
 
 		isNewline := d == "\n"
 		isLineComment := strings.HasPrefix(d, "//")
@@ -707,6 +713,9 @@ func (r *FileRestorer) applySpace(node dst.Node, position string, space dst.Spac
 	}
 	if r.cursor == r.cursorAtNewLine {
 		newlines--
+	}
+	if verifhook.Enabled {
+		verifhook.Space(fmt.Sprintf("%T", node), position, int(space), newlines, int(r.cursor))
 	}
 	for i := 0; i < newlines; i++ {
 
